@@ -8,6 +8,7 @@ namespace RichModel
 namespace Wrap
 open Text
 variable {σ : Type}
+variable {chars : Bool}
 
 /-- `M` shows exactly the non-whitespace characters of `L`, in order, each with the effective style it has in `L` -/
 structure SameInk (L M : Text σ) : Prop where
@@ -24,23 +25,29 @@ theorem space_isSpace : pyIsSpace ' ' = true := by decide
 
 /-! ### rstrip_end -/
 
-theorem rstripEnd_spec (t : Text σ) (h : Inv t) (size : Nat) :
-    ∃ k, rlen t.plain ≤ k ∧ (t.rstripEnd Variant.repaired (size : Int)).plain = t.plain.take k ∧
-      (t.rstripEnd Variant.repaired (size : Int)).view = t.view.take k ∧
-      Inv (t.rstripEnd Variant.repaired (size : Int)) ∧ (t.rstripEnd Variant.repaired (size : Int)).style = t.style := by
+theorem rstripEnd_spec (cw : Char → Nat) (t : Text σ) (h : Inv t) (size : Nat) :
+    ∃ k, rlen t.plain ≤ k ∧ (Text.rstripEndW chars cw Variant.repaired t (size : Int)).plain = t.plain.take k ∧
+      (Text.rstripEndW chars cw Variant.repaired t (size : Int)).view = t.view.take k ∧
+      Inv (Text.rstripEndW chars cw Variant.repaired t (size : Int)) ∧ (Text.rstripEndW chars cw Variant.repaired t (size : Int)).style = t.style := by
   have hnoop : ∃ k, rlen t.plain ≤ k ∧ t.plain = t.plain.take k ∧ t.view = t.view.take k ∧ Inv t ∧ t.style = t.style :=
     ⟨t.plain.length, rlen_le _, by simp, by rw [List.take_of_length_le]; rw [view_eq_annot, annot_length]; omega, h, rfl⟩
-  unfold rstripEnd
+  unfold Text.rstripEndW
   simp only
+  -- the length the code compares with the width: characters (today) or cells (repaired)
+  have hTL : ∃ n : Nat, (if chars = true then t.length else (cellLen cw t.plain : Int)) = (n : Int) := by
+    cases chars
+    · exact ⟨cellLen cw t.plain, by simp⟩
+    · exact ⟨t.plain.length, by simp [h.1]⟩
+  obtain ⟨n, hn⟩ := hTL
+  rw [hn]
   split
   · rename_i hgt
     split
     · rename_i hws
-      have hlen := h.1
-      have hcast : min (trailingSpaceCount t.plain : Int) (t.length - (size : Int)) =
-          ((min (trailingSpaceCount t.plain) (t.plain.length - size) : Nat) : Int) := by omega
+      have hcast : min (trailingSpaceCount t.plain : Int) ((n : Int) - (size : Int)) =
+          ((min (trailingSpaceCount t.plain) (n - size) : Nat) : Int) := by omega
       rw [hcast]
-      refine ⟨t.plain.length - min (trailingSpaceCount t.plain) (t.plain.length - size), ?_, ?_, view_rightCrop _ _,
+      refine ⟨t.plain.length - min (trailingSpaceCount t.plain) (n - size), ?_, ?_, view_rightCrop _ _,
         inv_rightCrop _ _ h, ?_⟩
       · have := trailing_add_rlen t.plain; omega
       · rw [rightCrop_nat]
@@ -48,10 +55,10 @@ theorem rstripEnd_spec (t : Text σ) (h : Inv t) (size : Nat) :
     · exact hnoop
   · exact hnoop
 
-theorem rstripEnd_sameInk (t : Text σ) (h : Inv t) (size : Nat) :
-    SameInk t (t.rstripEnd Variant.repaired (size : Int)) ∧
-      pyRstrip (t.rstripEnd Variant.repaired (size : Int)).plain = pyRstrip t.plain := by
-  obtain ⟨k, hk, hp, hv, hi, hs⟩ := rstripEnd_spec t h size
+theorem rstripEnd_sameInk (cw : Char → Nat) (t : Text σ) (h : Inv t) (size : Nat) :
+    SameInk t (Text.rstripEndW chars cw Variant.repaired t (size : Int)) ∧
+      pyRstrip (Text.rstripEndW chars cw Variant.repaired t (size : Int)).plain = pyRstrip t.plain := by
+  obtain ⟨k, hk, hp, hv, hi, hs⟩ := rstripEnd_spec (chars := chars) cw t h size
   refine ⟨⟨hi, hs, ?_⟩, ?_⟩
   · rw [hv]; exact nsv_take _ _ (view_drop_space t k hk)
   · rw [hp]; exact pyRstrip_take _ _ hk
@@ -190,7 +197,7 @@ theorem justifyLines_map [BEq σ] (wv : WVariant) (cw : Char → Nat) (A : Style
 
 /-- the line `Text.wrap` finally produces from a divided line `l` (modes other than "full") -/
 def finishLine (wv : WVariant) (cw : Char → Nat) (width : Nat) (j : Justify) (o : Overflow) (l : Text σ) : Text σ :=
-  (justifyOne wv cw width j o (l.rstripEnd wv.text width)).truncate cw width (some o)
+  (justifyOne wv cw width j o (Text.rstripEndW wv.rstripChars cw wv.text l width)).truncate cw width (some o)
 
 theorem cellLen_replicate_space (cw : Char → Nat) (hsp : cw ' ' = 1) (n : Nat) :
     cellLen cw (List.replicate n ' ') = n := by
@@ -200,12 +207,12 @@ theorem cellLen_replicate_space (cw : Char → Nat) (hsp : cw ' ' = 1) (n : Nat)
 non-whitespace characters and their styles through stripping, justification and the final crop -/
 theorem finishLine_fold_sameInk (cw : Char → Nat) (hsp : cw ' ' = 1) (h2 : ∀ c, cw c ≤ 2) (w : Nat) (j : Justify) (hj : j ≠ Justify.full)
     (L : Text σ) (h : Inv L) (hfit : cellLen cw (pyRstrip L.plain) ≤ w) :
-    SameInk L (finishLine WVariant.repaired cw w j Overflow.fold L) := by
-  obtain ⟨h0, hr0⟩ := rstripEnd_sameInk L h w
-  have hfit0 : cellLen cw (pyRstrip (L.rstripEnd Variant.repaired (w : Int)).plain) ≤ w := by rw [hr0]; exact hfit
+    SameInk L (finishLine (WVariant.fixed chars) cw w j Overflow.fold L) := by
+  obtain ⟨h0, hr0⟩ := rstripEnd_sameInk (chars := chars) cw L h w
+  have hfit0 : cellLen cw (pyRstrip (Text.rstripEndW chars cw Variant.repaired L (w : Int)).plain) ≤ w := by rw [hr0]; exact hfit
   unfold finishLine
-  show SameInk L ((justifyOne WVariant.repaired cw w j Overflow.fold (L.rstripEnd Variant.repaired (w : Int))).truncate cw w _)
-  generalize L.rstripEnd Variant.repaired (w : Int) = l0 at h0 hfit0
+  show SameInk L ((justifyOne (WVariant.fixed chars) cw w j Overflow.fold (Text.rstripEndW chars cw Variant.repaired L (w : Int))).truncate cw w _)
+  generalize Text.rstripEndW chars cw Variant.repaired L (w : Int) = l0 at h0 hfit0
   have hne : Overflow.fold ≠ Overflow.ellipsis := by decide
   cases j with
   | full => exact absurd rfl hj
@@ -237,9 +244,9 @@ theorem finishLine_fold_sameInk (cw : Char → Nat) (hsp : cw ' ' = 1) (h2 : ∀
     have hle1 : cellLen cw l0.rstrip.plain ≤ w := by rw [hp1]; exact hfit0
     simp only [justifyOne]
     rw [truncate_noop cw _ w _ hle1]
-    have hc1 : padCount WVariant.repaired (((w : Int) - (cellLen cw l0.rstrip.plain : Int)) / 2)
+    have hc1 : padCount (WVariant.fixed chars) (((w : Int) - (cellLen cw l0.rstrip.plain : Int)) / 2)
         = (((w - cellLen cw l0.rstrip.plain) / 2 : Nat) : Int) := by
-      simp only [padCount, WVariant.repaired]; omega
+      simp only [padCount, WVariant.fixed]; omega
     rw [hc1]
     have h2 := padLeft_sameInk l0.rstrip h1.inv ((w - cellLen cw l0.rstrip.plain) / 2)
     have hlen2 : cellLen cw (l0.rstrip.padLeft (((w - cellLen cw l0.rstrip.plain) / 2 : Nat) : Int) ' ').plain
@@ -258,9 +265,9 @@ theorem finishLine_fold_sameInk (cw : Char → Nat) (hsp : cw ' ' = 1) (h2 : ∀
     have hle1 : cellLen cw l0.rstrip.plain ≤ w := by rw [hp1]; exact hfit0
     simp only [justifyOne]
     rw [truncate_noop cw _ w _ hle1]
-    have hc1 : padCount WVariant.repaired ((w : Int) - (cellLen cw l0.rstrip.plain : Int))
+    have hc1 : padCount (WVariant.fixed chars) ((w : Int) - (cellLen cw l0.rstrip.plain : Int))
         = ((w - cellLen cw l0.rstrip.plain : Nat) : Int) := by
-      simp only [padCount, WVariant.repaired]; omega
+      simp only [padCount, WVariant.fixed]; omega
     rw [hc1]
     have h2 := padLeft_sameInk l0.rstrip h1.inv (w - cellLen cw l0.rstrip.plain)
     have hlen2 : cellLen cw (l0.rstrip.padLeft ((w - cellLen cw l0.rstrip.plain : Nat) : Int) ' ').plain ≤ w := by
